@@ -42,6 +42,8 @@ type hlis struct {
 	closed bool
 	tls    bool
 	acc    chan *netceptor.Conn
+	emu    sync.Mutex
+	errs   []string // errors returned by Accept (refused streams), with the time
 }
 type hconn struct {
 	id           uint64
@@ -385,6 +387,9 @@ func (h *hrun) opListen(node int, name string, adv bool) {
 				if strings.Contains(err.Error(), "listener closed") || strings.Contains(err.Error(), "server closed") {
 					return
 				}
+				l.emu.Lock()
+				l.errs = append(l.errs, fmt.Sprintf("%s %v", time.Now().Format("15:04:05.000"), err))
+				l.emu.Unlock()
 				select {
 				case <-time.After(5 * time.Millisecond):
 				}
@@ -523,7 +528,8 @@ func (h *hrun) opDial(dnode int, kind string, l *hlis, s *hsock) {
 			}
 		case <-deadline:
 			h.res.violate(fmt.Sprintf("dial %s -> %s:%q succeeded but the connection was not handed to Accept within 45s", h.names[dnode], h.names[tnode], tname), "accept-missing",
-				map[string]interface{}{"history": h.labels, "stacks": stacksOf("acceptLoop", "Listener).Accept", "baseServer).accept", "baseServer).Accept")})
+				map[string]interface{}{"history": h.labels, "now": time.Now().Format("15:04:05.000"), "dialled": tDialled.Format("15:04:05.000"), "accept_errors_of_this_listener": func() []string { l.emu.Lock(); defer l.emu.Unlock(); return append([]string{}, l.errs...) }(),
+					"stacks": stacksOf("acceptLoop", "Listener).Accept", "baseServer).accept", "baseServer).Accept")})
 			h.aborted = true
 			return
 		}
